@@ -1,5 +1,6 @@
 import EaselModel.Getopts.Stops
 import EaselModel.Getopts.Abbrev
+import EaselModel.Getopts.Ranges
 /-! # C14 — option processing resolves every configuration by the documented rules
 
 Property theorems about the executable model `EaselModel.Getopts` of `esl_getopts.c` (tied to the working tree by
@@ -21,7 +22,7 @@ and every sequence of sources:
 * (f) queries: `isUsed_iff`, `isDefault_of_default_setter`, `not_default_has_setter`
 
 Not proved here (checked by the differential run only): that the decimal `strtod`/`strtol` models agree with glibc;
-that `parseRange` on a documented range string yields the bounds a reader expects (examples below by `decide`). -/
+that real-valued bounds are read as intended from a range string (integer and character bounds are proved; real ones by examples below). -/
 namespace EaselModel.Props.C14
 open EaselModel.Getopts
 
@@ -198,6 +199,34 @@ theorem unknown_short_option (g : G) (c : Char) (cs : Str) (next : Option Str) (
     stdLoop g (c :: cs) next = .stop g .esyntax true 1 := by
   simp [stdLoop, h]
 
+/-- "outside its declared range", two-sided integer range `lo<[=]n<[=]hi` (`lo` an integer literal): accepted iff
+    between the bounds, inclusive or exclusive as the `=` signs say -/
+theorem int_range_two_sided (v lo hi : Str) (geq leq : Bool) (hlo : IntLit lo) (hhi : leq = false → hi.head? ≠ some '=') :
+    intRangeOk v (some (twoSided 'n' lo geq leq hi)) =
+      ((if geq then decide (atoi v ≥ atoi lo) else decide (atoi v > atoi lo)) &&
+       (if leq then decide (atoi v ≤ atoi hi) else decide (atoi v < atoi hi))) := intRangeOk_twoSided v lo hi geq leq hlo hhi
+
+theorem int_range_lower (v a : Str) (incl : Bool) (h : incl = false → a.head? ≠ some '=') :
+    intRangeOk v (some ('n' :: '>' :: ((if incl then ['='] else []) ++ a))) =
+      (if incl then decide (atoi v ≥ atoi a) else decide (atoi v > atoi a)) := intRangeOk_lower v a incl h
+
+theorem int_range_upper (v b : Str) (incl : Bool) (h : incl = false → b.head? ≠ some '=') :
+    intRangeOk v (some ('n' :: '<' :: ((if incl then ['='] else []) ++ b))) =
+      (if incl then decide (atoi v ≤ atoi b) else decide (atoi v < atoi b)) := intRangeOk_upper v b incl h
+
+/-- the documented two-sided range form is parsed as intended for every marker (`n`, `x`, `c`) -/
+theorem range_string_two_sided (c : Char) (lo hi : Str) (geq leq : Bool) (hc : c ∉ lo) (hc1 : c ≠ '<') (hc2 : c ≠ '=')
+    (hhi : leq = false → hi.head? ≠ some '=') :
+    parseRange (twoSided c lo geq leq hi) c =
+      some { lower := some (twoSided c lo geq leq hi), geq := geq, upper := some hi, leq := leq } :=
+  parseRange_twoSided c lo hi geq leq hc hc1 hc2 hhi
+
+theorem char_range_two_sided (v lo hi : Str) (geq leq : Bool) (hc : 'c' ∉ lo) (hne : lo ≠ []) (hhi : leq = false → hi.head? ≠ some '=') :
+    charRangeOk v (some (twoSided 'c' lo geq leq hi)) =
+      ((if geq then decide ((v.getD 0 '\x00').toNat ≥ (lo.getD 0 '\x00').toNat) else decide ((v.getD 0 '\x00').toNat > (lo.getD 0 '\x00').toNat)) &&
+       (if leq then decide ((v.getD 0 '\x00').toNat ≤ (hi.getD 0 '\x00').toNat) else decide ((v.getD 0 '\x00').toNat < (hi.getD 0 '\x00').toNat))) :=
+  charRangeOk_twoSided v lo hi geq leq hc hne hhi
+
 theorem verifyConfig_ok_iff_consistent (g : G) (hw : WF g.opts) :
     (verifyConfig g = (.ok, false) ∧ ∀ j, j < g.opts.length → g.isSetOn j = true → ReqOk g j ∧ IncOk g j) ∨
     (verifyConfig g = (.esyntax, true) ∧ ∃ j, j < g.opts.length ∧ g.isSetOn j = true ∧ (¬ ReqOk g j ∨ ¬ IncOk g j)) :=
@@ -273,5 +302,14 @@ example : (run2.valOf 1, run2.setter 1, run2.valOf 2, run2.setter 2) = (.null, 1
 example : (run2.valOf 3, run2.setter 3, run2.nfiles) = (.str (s "7"), 1, 1) := by decide
 /-- a config-file line naming an argument-taking option without argument (fix 8d4fde4) -/
 example : (match processConfigfile demoG (s "-n\n") with | .done g st m => (st, m, g.nfiles) | .fault => default) = (.esyntax, true, 0) := by decide
+
+/-- documented range strings -/
+example : twoSided 'n' (s "0") true false (s "10") = s "0<=n<10" := by decide
+example : IntLit (s "-100") := ⟨true, s "100", by decide, by decide, by decide⟩
+example : intRangeOk (s "9") (some (s "0<=n<10")) = true ∧ intRangeOk (s "10") (some (s "0<=n<10")) = false ∧
+    intRangeOk (s "-1") (some (s "0<=n<10")) = false := by decide
+example : realRangeOk (s "0.5") (some (s "0<x<1")) = true ∧ realRangeOk (s "1") (some (s "0<x<1")) = false ∧
+    realRangeOk (s "1e-3") (some (s "0<x<1")) = true ∧ realRangeOk (s "0.0") (some (s "0<x<1")) = false := by decide
+example : charRangeOk (s "y") (some (s "a<=c<=z")) = true ∧ charRangeOk (s "A") (some (s "a<=c<=z")) = false := by decide
 
 end EaselModel.Props.C14
